@@ -16,7 +16,7 @@ REGS = {
 }
 REGS['r8'] = REGS['r6'] + [('Word', 6), ('Heap', 7)]
 REGS['r10'] = REGS['r8'] + [('Tiny', 8), ('Wide', 9)]
-for _k, _base in (('p6a', 'r6'), ('p6b', 'r6'), ('p6c', 'r6'), ('p10', 'r10'), ('p1', 'r1')):
+for _k, _base in (('p6a', 'r6'), ('p6b', 'r6'), ('p6c', 'r6'), ('p10', 'r10'), ('p1', 'r1'), ('t6', 'r6'), ('t10', 'r10')):
     REGS[_k] = REGS[_base]
 PAR_SLICE = {'p6a': (0, 3), 'p6b': (1, 3), 'p6c': (2, 3), 'p10': (0, 1), 'p1': (0, 1)}
 HAS_SERIAL = {'Tiny': False, 'Word': True, 'Heap': True, 'Zst': False, 'Wide': True, 'Odd': False}
@@ -126,7 +126,7 @@ def rand_filter(rng, comps, depth, kinds=None):
     return ('Views', items)
 
 
-def gen_queries(rng, n, nrand):
+def gen_queries(rng, n, nrand, random_only=False):
     """list of (views, id_pos, filter)"""
     qs = []
     comps = list(range(n))
@@ -139,6 +139,18 @@ def gen_queries(rng, n, nrand):
     seen = set()
     add([], None, ('None',))
     add([], 0, ('None',))
+    if random_only:
+        # seed-derived pools (thorough tier): only the random part
+        target = len(qs) + nrand
+        tries = 0
+        while len(qs) < target and tries < 20000:
+            tries += 1
+            k = rng.choice([1, 1, 2, 2, 3, 3, 4, 5]) if n >= 5 else rng.randint(0, n)
+            cs = rng.sample(comps, min(k, n))
+            views = [(c, rng.choice(VK)) for c in cs]
+            id_pos = rng.choice([None, None, rng.randint(0, len(views))])
+            add(views, id_pos, rand_filter(rng, comps, 3))
+        return qs
     if n == 0:
         add([], 0, ('Not', ('None',)))
         add([], None, ('Ident',))
@@ -208,7 +220,7 @@ SUB_OK = {
 }
 
 
-def gen_entries(rng, n, nrand):
+def gen_entries(rng, n, nrand, random_only=False):
     """list of (views, entry_views, entry_has_id, sub_views, sub_id_pos, sub_filter)"""
     out = []
     seen = set()
@@ -224,7 +236,7 @@ def gen_entries(rng, n, nrand):
             out.append((views, ev, ev_id, sub, sub_id, f))
     # systematic: every admissible (sub kind <- super kind) pairing on one component,
     # with a second declared component before/after it to move the column cursor
-    for sk in VK:
+    for sk in ([] if random_only else VK):
         for supk in SUB_OK[sk]:
             for c in ([1, n - 1] if n >= 3 else [0]):
                 others = [x for x in comps if x != c]
@@ -239,7 +251,7 @@ def gen_entries(rng, n, nrand):
     ev = [(c, VK[(c + 1) % 4]) for c in comps[:4]]
     add([], ev, True, [], 0, ('None',))
     add([], ev, True, [], None, ('None',))
-    for kind_shift in range(4):
+    for kind_shift in ([] if random_only else range(4)):
         ev = [(c, VK[(c + kind_shift) % 4]) for c in comps]
         sub = [(c, rng.choice(SUB_OK_INV[k])) for c, k in ev]
         add([], ev, True, list(reversed(sub)), 1 if sub else 0, ('None',))
@@ -331,7 +343,8 @@ def emit(name, seed, nq, ne):
     obs_vec = 'vec![%s]' % ', '.join('c%d.map(|x| x.obs())' % i for i in range(n))
 
     # ---------------- queries
-    queries = gen_queries(rng, n, nq)
+    random_only = name.startswith('t')
+    queries = gen_queries(rng, n, nq, random_only)
     if par_mode:
         off, stride = PAR_SLICE[name]
         # every query of this crate is also compiled as a parallel query; prefer queries with views
@@ -394,7 +407,7 @@ def emit(name, seed, nq, ne):
         w('}')
 
     # ---------------- entry triples
-    entries = gen_entries(rng, n, ne)
+    entries = gen_entries(rng, n, ne, random_only)
     if par_mode:
         entries = entries[:2]
     w('static ENTRIES: &[EntryMeta] = &[')
